@@ -46,7 +46,9 @@ class EliminateVariable:
 
     def global_mutations(self, node, input_):
         ops = node[1:]
-        targets = list(filter(lambda n: n.is_leaf(), ops))
+        # only eliminate symbols, replacing the constant c of (= x c) by x
+        # everywhere is undone by substituting constants for x again
+        targets = list(filter(lambda n: n.is_leaf() and not is_const(n), ops))
         for t in targets:
             for c in ops:
                 if c == t:
